@@ -1,9 +1,10 @@
 import CoolerModel.Drv.JsonUtil
 import CoolerModel.Model.Zoomify
+import CoolerModel.Model.LegacyZoom
 import CoolerModel.Model.Index
 open Lean
 namespace Cooler.Drv.C09
-open Cooler Cooler.Drv Cooler.Coarsen Cooler.Zoomify Cooler.Merge
+open Cooler Cooler.Drv Cooler.Coarsen Cooler.Zoomify Cooler.Merge Cooler.LegacyZoom
 
 def jOptNat : Option Nat → Json := jOpt jNat
 
@@ -96,6 +97,25 @@ def handle : Handler := fun op a =>
       let stop ← getNat a "stop"
       let style ← getStr a "style"
       return Json.mkObj [("model", jNats (preferredSequence start stop (if style = "binary" then .binary else .nice)))]
+  | "C09.legacy" => some do
+      -- legacy_zoomify: depth from (total bp, base bin size, tile dimension); levels n … 0 through the L1 pipeline
+      -- (repeated factor-2 coarsen_cooler) and, as L0, directly from the base by 2^k
+      let bins ← getBins a "bins"
+      let px ← getPixels a "pixels"
+      let cs ← getNat a "chunksize"
+      let binsize ← getNat a "binsize"
+      let tile ← getNat a "tile"
+      let total := ((groups bins).map lastStop).foldl (· + ·) 0
+      let n := quadtreeDepth total binsize tile
+      let base : Level := (bins, px)
+      let l1 := legacyDown cs n base
+      let l0 : List Level := (List.range (n + 1)).map fun k => if k = 0 then base else specLevel (2 ^ k) base
+      return Json.mkObj [
+        ("depth", jNat n), ("total_bp", jNat total),
+        ("levels", jList jLevel l0),
+        ("binsizes", jList (fun p => Json.arr #[jNat p.1, jNat p.2]) (legacyBinsizes n binsize)),
+        ("l1_agrees", Json.bool (decide (l1 = l0))),
+        ("base_ok", Json.bool (levelOkB base))]
   | _ => none
 
 end Cooler.Drv.C09
